@@ -39,9 +39,12 @@ func (c *Cmt) prepareOn(n *Node, h int64, t time.Time, proposer []byte, eci abci
 		NextValidatorsHash: c.NextVals.Hash(), ProposerAddress: proposer}
 	var resp *abci.ResponsePrepareProposal
 	var err error
-	trouble := n.EL.Trouble
+	trouble, rejects, env := n.EL.Trouble, len(n.EL.GoatRejects), n.EL.EnvTrouble
 	out := n.run("prepare", func() { resp, err = n.App.PrepareProposal(req) })
 	n.lastFaulted = anyUsed(faults) || n.EL.Trouble != trouble
+	n.lastInjected = anyUsed(faults)
+	n.lastEnvTrouble = n.EL.EnvTrouble != env
+	n.lastGoatRejects = n.EL.GoatRejects[rejects:]
 	n.EL.arm(nil)
 	if resp == nil {
 		return nil, out, err
@@ -194,6 +197,7 @@ func (c *Cmt) produceBlock(args *BlockArgs) bool {
 			w.fault("engine/stall-hang")
 			continue
 		}
+		w.judgePrepareFailure(pn, h, t, txs, err, spec)
 		if err != nil {
 			continue
 		}
